@@ -144,11 +144,17 @@ func synthArgs(r *Rng, m methodInfo, c *synthCtx, variant int) []Val {
 	case "SetLogger":
 		return []Val{[]Val{vStr("stdout"), vInt(2), {K: "logger"}, vStr("stderr")}[variant%4]}
 	case "SetEncap", "Encap":
+		if variant%4 == 3 {
+			return nil // no argument: clears the list
+		}
 		ch := []string{"\"", "'", "<", "[", "`", "|", "#", "%"}
 		return []Val{vStr(ch[(variant+r.Intn(4))%len(ch)])}
 	case "SetDelimiter":
 		return []Val{vStr([]string{",", ";", "|", "-"}[variant%4])}
 	case "SetSymbol", "Symbol":
+		if variant%4 == 3 {
+			return nil // no argument: clears the symbol
+		}
 		return []Val{vStr([]string{"&", "||", "!", "+"}[variant%4])}
 	case "SetFIFO":
 		return []Val{vBool(true)}
